@@ -38,7 +38,7 @@ Proof. intros. destruct fixed; reflexivity. Qed.
 (* the range check of the source, with t_precheck_nd_only left as scanned: an ndarray is checked element by element; a list
    (anything else) leaf by leaf, unless t_precheck_nd_only holds and it contains a Python float (NumPy then infers float64 for
    the whole list, and the check leaves it to the cast, which raises OverflowError for a Python number out of range) *)
-Definition src_checked (e : etype) (y : pyval) : bool :=
+Definition src_checked_old (e : etype) (y : pyval) : bool :=
   match y with
   | PArr _ l => forallb (int_leaf_ok e) l
   | _ => match np_flat y with
@@ -46,6 +46,20 @@ Definition src_checked (e : etype) (y : pyval) : bool :=
          | Raise _ => true
          end
   end.
+(* ... and with t_src_exact (the helper _int_elements_ok_) every leaf, of whatever kind of source, must be an integer in range *)
+Definition src_checked (e : etype) (y : pyval) : bool :=
+  if t_src_exact TG
+  then match np_flat y with Ok sl => forallb (int_leaf_exact e) (snd sl) | Raise _ => true end
+  else src_checked_old e y.
+
+(* the exact check is the stronger one *)
+Lemma int_leaf_exact_ok : forall e x, int_leaf_exact e x = true -> int_leaf_ok e x = true.
+Proof.
+  intros e x H. destruct e as [[|w|w|w]|t]; try reflexivity; destruct x; try reflexivity; cbn [int_leaf_exact int_leaf_ok] in *; try exact H;
+    (apply andb_true_iff in H; destruct H as [H Hr]; apply andb_true_iff in H; destruct H as [Hf Hi];
+     assert (f_isnan bits = false) as -> by (unfold f_isnan; unfold f_isfinite in Hf; destruct (f_exp bits =? 2047)%N; [discriminate|reflexivity]);
+     rewrite Hf; unfold f_floor, f_ceil; rewrite Hi; cbn [negb]; rewrite !andb_false_r, Hr; reflexivity).
+Qed.
 
 Lemma int_src_ok_b : forall b e y, int_src_ok (TGw b) e y = negb b || src_checked e y.
 Proof. reflexivity. Qed.
@@ -92,7 +106,7 @@ Proof.
   intros q fixed cap sl k zs v Hk H. rewrite assign_array_genb in H.
   replace (strconv sl (PList (map PInt zs))) with (PList (map PInt zs)) in H by (destruct sl; reflexivity).
   cbn [assignGb] in H. unfold slowGb in H. rewrite int_src_ok_b in H. cbn [negb orb] in H.
-  unfold np_array in H. destruct (np_flat_ints zs) as [sh E]. rewrite E in H. cbn [bind snd] in H.
+  rewrite np_array_pylist in H by apply pyatom_ints.
   destruct (mapM (conv_leaf (dtype_of PW (EPrim k))) (map PInt zs)) as [l'|] eqn:M; cbn [bind] in H; [|discriminate].
   apply mapM_conv_ints_inv in M.
   2:{ destruct Hk as [w [->| ->]]; cbn [dtype_of]; eexists; eauto. }
@@ -108,11 +122,12 @@ Qed.
 Theorem array_src_checked_list : forall q fixed cap sl e l v,
   assign_array (set_precheck true TG) PW q fixed cap sl e (PList l) = Ok v ->
   forall shl, np_flat (PList l) = Ok shl ->
-  (t_precheck_nd_only TG && existsb is_pyfloat (snd shl)) || forallb (int_leaf_ok e) (snd shl) = true.
+  (if t_src_exact TG then forallb (int_leaf_exact e) (snd shl)
+   else (t_precheck_nd_only TG && existsb is_pyfloat (snd shl)) || forallb (int_leaf_ok e) (snd shl)) = true.
 Proof.
   intros q fixed cap sl e l v H shl E. rewrite assign_array_genb in H.
   replace (strconv sl (PList l)) with (PList l) in H by (destruct sl; reflexivity).
-  cbn [assignGb] in H. apply slowGb_checked in H. unfold src_checked in H. rewrite E in H. exact H.
+  cbn [assignGb] in H. apply slowGb_checked in H. unfold src_checked, src_checked_old in H. rewrite E in H. exact H.
 Qed.
 
 (* a list of Python ints only (no float in it) is always checked leaf by leaf *)
@@ -124,7 +139,9 @@ Proof.
   pose proof (array_src_checked_list _ _ _ _ _ _ _ H _ E) as C. cbn [snd] in C.
   assert (existsb is_pyfloat (map PInt zs) = false) as N.
   { clear. induction zs as [|z r IH]; [reflexivity|]. cbn [map existsb is_pyfloat orb]. exact IH. }
-  rewrite N, andb_false_r in C. exact C.
+  destruct (t_src_exact TG).
+  - rewrite forallb_forall in *. intros x Hx. apply int_leaf_exact_ok. auto.
+  - rewrite N, andb_false_r in C. exact C.
 Qed.
 
 Theorem array_src_checked_ndarray : forall q fixed cap k dt' l v, (exists w, k = KU w \/ k = KS w) ->
@@ -134,7 +151,12 @@ Theorem array_src_checked_ndarray : forall q fixed cap k dt' l v, (exists w, k =
 Proof.
   intros q fixed cap k dt' l v Hk Hd H. rewrite assign_array_genb in H. cbn [strconv assignGb] in H.
   rewrite Hd in H. cbn [andb] in H.
-  pose proof (slowGb_checked _ _ _ _ _ _ H) as F. cbn [src_checked] in F. split; [exact F|].
+  pose proof (slowGb_checked _ _ _ _ _ _ H) as F0.
+  assert (F : forallb (int_leaf_ok (EPrim k)) l = true).
+  { unfold src_checked in F0. destruct (t_src_exact TG); [|exact F0].
+    destruct (np_flat_PArr dt' l) as [sh E]. rewrite E in F0. cbn [snd] in F0.
+    rewrite forallb_forall in *. intros x Hx. apply int_leaf_exact_ok. auto. }
+  split; [exact F|].
   intros z Hz. rewrite forallb_forall in F. specialize (F _ Hz).
   destruct Hk as [w [->| ->]]; exact F.
 Qed.
